@@ -46,10 +46,12 @@ package redisemu
 //@ ensures [C20] once: old(cc.closing) ==> gTerminateQueued == old(gTerminateQueued) && gSocketClosed == old(gSocketClosed)
 
 //@ func clientCxn.IsCloseRequested
-//@ trusted
-//@ pure
+//@ prop C12 C20 C16
+//@ guards on
+//@ safetyprop none
 //@ requires cc != nil
-//@ ensures result == cc.closing
+//@ modifies ghost.mutexHeld
+//@ ensures [C12,C20,C16] flag.read: result == cc.closing
 
 //@ func RedisEmu.RequestTermination
 //@ prop C20
